@@ -42,7 +42,7 @@ DEFAULTS: Dict[str, Any] = dict(
     max_depth=3, ops_per_step=(2, 5), big_corr=False, autograd=False, bwd_annotation=True, step_gap=(0, 1, 1, 7),
     pre_ops=1, post_ops=1, first_step=None, file_order="time", p_plain_rt=0.08, kernel_durs=(0, 1, 5, 20, 60),
     launch_lat=(0, 0, 1, 3, 10), queue_lat=(0, 0, 1, 5, 40), device_pid=0, repeat_names=False, annotation_nest=False,
-    p_leaf_children=(0, 3), ops_pool=None, p_unlaunched=0.0, sync_straddle=False, source_counters=False, outer_frame=False, corr_zero=False, small_corr=False, tid_base=None, tid_desc=False, post_launch=False, exotic_launch=False, multi_process=False, graph_launch=False,
+    p_leaf_children=(0, 3), ops_pool=None, p_unlaunched=0.0, sync_straddle=False, source_counters=False, outer_frame=False, corr_zero=False, small_corr=False, tid_base=None, tid_desc=False, post_launch=False, exotic_launch=False, multi_process=False, graph_launch=False, p_zero_launch=0.0, nested_driver=False,
 )
 
 
@@ -112,6 +112,8 @@ class Sim:
             c, self.used_zero = 0, True          # correlation id 0 is a legal id (counters start there)
         ts = th["t"]
         dur = max(1, self.d(2, 9))
+        if p["p_zero_launch"] and self.r.random() < p["p_zero_launch"]:
+            dur = 0                                  # a launch call shorter than the clock resolution
         rname = {"k": self.r.choice(LAUNCH_K), "cpy": "cudaMemcpyAsync", "set": "cudaMemsetAsync"}[kind]
         if p["exotic_launch"] and self.r.random() < 0.3:
             # launch APIs beyond the handful most analyses know by name; the correlation link is what identifies the launch call
@@ -119,6 +121,8 @@ class Sim:
                      "set": "cudaMemset"}[kind]
         L = self.X("cuda_runtime" if rname != "cuLaunchKernel" else "cuda_driver", rname, th.get("pid", self.host_pid), th["tid"], ts, dur,
                    {"correlation": c, "cbid": 211, "External id": c})
+        if rname == "cudaMemcpyAsync":
+            self._nest_driver(th, L, "cuMemcpyHtoDAsync_v2")
         if self.r.random() < p["p_unlaunched"]:
             # a launch call whose kernel never shows up in the trace (e.g. profiling stopped)
             th["t"] = ts + dur + self.d(0, 3)
@@ -149,7 +153,13 @@ class Sim:
                 self.free_at[s] = self.last_start[s] + kd2
         self.last_launch_on[s] = (L, K)
         self.truth["launch"].append((L, K))
-        th["t"] = ts + dur + self.d(0, 3)
+        th["t"] = ts + dur + (self.d(0, 3) if dur else max(1, self.d(0, 3)))
+
+    def _nest_driver(self, th: Dict[str, Any], H: Dict[str, Any], name: str) -> None:
+        """The runtime call is a thin wrapper: a driver-API call nested inside it that returns before the wrapper does."""
+        if self.p["nested_driver"] and H["dur"] >= 3 and self.r.random() < 0.6:
+            d = self.r.randint(1, H["dur"] - 2)
+            self.X("cuda_driver", name, th.get("pid", self.host_pid), th["tid"], H["ts"] + 1, d, {})
 
     def stream_sync(self, th: Dict[str, Any]) -> None:
         s = self.r.choice(self.streams)
@@ -160,6 +170,7 @@ class Sim:
         ts = th["t"]
         end = max(ts + 3, self.free_at[s] + 1)
         H = self.X("cuda_runtime", "cudaStreamSynchronize", th.get("pid", self.host_pid), th["tid"], ts, end - ts, {"correlation": c, "cbid": 131, "External id": c})
+        self._nest_driver(th, H, "cuStreamSynchronize")
         S = self.X("cuda_sync", "Stream Sync", self.p["device_pid"], s, ts + 1, end - ts - 2,
                    {"correlation": c, "stream": s, "device": self.p["device_pid"], "cuda_sync_kind": "Stream Sync", "context": 1, "External id": c})
         self.sync_until[s] = max(self.sync_until[s], end)
@@ -171,6 +182,7 @@ class Sim:
         ts = th["t"]
         end = max([ts + 3] + [v + 1 for v in self.free_at.values()])
         H = self.X("cuda_runtime", "cudaDeviceSynchronize", th.get("pid", self.host_pid), th["tid"], ts, end - ts, {"correlation": c, "cbid": 165, "External id": c})
+        self._nest_driver(th, H, "cuCtxSynchronize")
         S = self.X("cuda_sync", "Context Sync", self.p["device_pid"], -1, ts + 1, end - ts - 2,
                    {"correlation": c, "stream": -1, "device": self.p["device_pid"], "cuda_sync_kind": "Context Sync", "context": 1, "External id": c})
         self.dev_sync_until = max(self.dev_sync_until, end)
